@@ -32,6 +32,8 @@ item("phwOldOneOctetLimit", PH, r"fn write_len.*?Self::Old \{.*?if \*len < (\d+)
 item("phwOldTwoOctetLimit", PH, r"fn write_len.*?Self::Old \{.*?else if \*len < (\d+)", "PacketHeader::write_len Old second threshold")
 item("phtOldOneOctetLimit", PH, r"fn to_writer.*?Self::Old \{ header, length \}.*?if \*len < (\d+)", "PacketHeader::to_writer Old first threshold")
 item("phtOldTwoOctetLimit", PH, r"fn to_writer.*?Self::Old \{ header, length \}.*?else if \*len < (\d+)", "PacketHeader::to_writer Old second threshold")
+item("oftOneOctetLimit", PH, r"fn old_fixed_type\(len: u32\) -> u8 \{\s*if len < (\d+) \{\s*0", "old_fixed_type: lengths below this get length type 0 (one octet)")
+item("oftTwoOctetLimit", PH, r"fn old_fixed_type\(len: u32\) -> u8 \{.*?\} else if len < (\d+) \{\s*1\s*\} else \{\s*2", "old_fixed_type: lengths below this get length type 1 (two octets), others type 2 (four octets)")
 # ---- reader/packet_body.rs ---------------------------------------------------------------
 PB = "src/composed/message/reader/packet_body.rs"
 item("rdFirstPartialMin", PB, r"if len < (\d+) \{\s*#\[cfg\(feature = \"malformed-artifact-compat\"\)\]", "PacketBodyReader::new minimum first partial length")
